@@ -4,6 +4,7 @@ import (
 	"flag"
 	"fmt"
 	"os"
+	"reflect"
 	"runtime"
 	"sort"
 	"strings"
@@ -103,6 +104,25 @@ func freshSharedTrees() []*formula.SourceCode {
 		ts = append(ts, src)
 	}
 	return ts
+}
+
+// roundStruct: a value of a struct type nobody has seen before (one new type per round): the fields of data.S1 plus
+// filler fields the projection skips. Whatever the library remembers per struct type is filled for this type while all
+// goroutines of the round ask at once.
+func roundStruct(round int) interface{} {
+	anyT := reflect.TypeOf((*interface{})(nil)).Elem()
+	fs := []reflect.StructField{{Name: "A", Type: anyT}, {Name: "B", Type: anyT}, {Name: "N", Type: anyT}, {Name: "P", Type: anyT},
+		{Name: "c", Type: reflect.TypeOf(0), PkgPath: "verif/harness/fam"}}
+	for k := 0; k < 120; k++ {
+		fs = append(fs, reflect.StructField{Name: fmt.Sprintf("F%03d", k), Type: reflect.TypeOf(0), Tag: `verif:"-"`})
+	}
+	fs = append(fs, reflect.StructField{Name: fmt.Sprintf("R%d", round), Type: reflect.TypeOf(0), Tag: `verif:"-"`})
+	v := reflect.New(reflect.StructOf(fs)).Elem()
+	v.Field(0).Set(reflect.ValueOf(4))
+	v.Field(1).Set(reflect.ValueOf(map[string]interface{}{"a": 2.5}))
+	v.Field(2).Set(reflect.ValueOf((*data.S1)(nil)))
+	v.Field(3).Set(reflect.ValueOf("p"))
+	return v.Interface()
 }
 
 func concOutcome(r *formula.Runner, e formula.Expression) any {
@@ -316,6 +336,7 @@ func recordConc(args []string) int {
 			trees = freshSharedTrees()
 		}
 		start := make(chan struct{})
+		stRound := roundStruct(round)
 		for g := 0; g < *G; g++ {
 			wg.Add(1)
 			go func(g int) {
@@ -386,6 +407,10 @@ func recordConc(args []string) int {
 						}
 						if di < 0 {
 							o = concOutcome(formula.NewRunner(), trees[ti].Expression)
+						} else if ti == len(trees)-1 {
+							r := formula.NewRunner()
+							r.SetThis(map[string]interface{}{"st": stRound})
+							o = concOutcome(r, trees[ti].Expression)
 						} else if dm, err := data.BuildMap(concDatas[di], nil); err != nil {
 							o = []any{"BROKEN", err.Error()}
 						} else {
